@@ -705,7 +705,7 @@ impl AsyncRead for TcpStream {
         let mut timer: Option<u64> = None;
         let res = with(|w| {
             let now = w.now;
-            let chunking = w.cfg.chunk_reads;
+            let chunking = w.cfg.chunk_reads && !w.canonical;
             if buf.remaining() == 0 {
                 w.net.zero_capacity_reads += 1;
                 w.event("zero_capacity_read", conn as u64, side as u64);
@@ -780,8 +780,8 @@ impl AsyncWrite for TcpStream {
         let (conn, side) = (self.conn, self.side);
         with(|w| {
             let now = w.now;
-            let short = w.cfg.short_writes;
-            let max_lat = w.cfg.max_latency_ns;
+            let short = w.cfg.short_writes && !w.canonical;
+            let max_lat = if w.canonical { 0 } else { w.cfg.max_latency_ns };
             if data.is_empty() {
                 return Poll::Ready(Ok(0));
             }
